@@ -390,6 +390,25 @@ def call_ext(eng, mod, name, args, kwargs, st, node):
         v = eng.fresh_val('real', 'now')
         st.trace.append(('time', v.z))
         return [(st, v)]
+    if mod == 'struct' and name == 'unpack':
+        _t('struct.unpack (value ranges of >i >Q >f >d; struct.error on a wrong length)')
+        fmt, data = args
+        if fmt.k != 'str' or fmt.py not in ('>i', '>Q', '>f', '>d', '>I') or data.k != 'bytes':
+            raise Unsupported(node, 'struct.unpack format')
+        n = {'>i': 4, '>Q': 8, '>f': 4, '>d': 8, '>I': 4}[fmt.py]
+        outs = []
+        for st1, ok in eng.branch(st, eng.bytes_len(data) == n, node):
+            if not ok:
+                outs.append((st1, Raised(eng.make_exc('struct.error', node=node))))
+                continue
+            if fmt.py in ('>f', '>d'):
+                val = eng.fresh_val('real', 'unpacked')
+            else:
+                val = eng.fresh_val('int', 'unpacked')
+                lo, hi = {'>i': (-2**31, 2**31 - 1), '>Q': (0, 2**64 - 1), '>I': (0, 2**32 - 1)}[fmt.py]
+                st1.pc.append(z3.And(val.z >= lo, val.z <= hi))
+            outs.append((st1, vtuple([val])))
+        return outs
     if mod == 'struct' and name == 'pack':
         _t('struct.pack (lengths and value ranges of >i >Q >f >d)')
         fmt = args[0]
